@@ -1,7 +1,8 @@
 (* C17 - Run statistics describe exactly the run that just finished. *)
 From Coq Require Import String ZArith List Bool Permutation.
 From SK Require Import Model.Skel Model.SkelQ Model.Stats Spec.Stats
-     Proofs.Stats Model.Task Proofs.Compose Gen.Exprs Gen.Skeleton.
+     Proofs.Stats Model.Task Proofs.Compose Gen.Exprs Gen.Skeleton
+     Model.StatsSrc Gen.XStats.
 Import ListNotations.
 Open Scope Z_scope.
 
@@ -55,6 +56,16 @@ Theorem C17_increments_from_source :
   jobs_completed_increment tt = 1.
 Proof. repeat split. Qed.
 
+(* what a reset installs, read off the dictionary literal of
+   SearchTaskStats.reset: the model's all-zero record, with searches_by_job a
+   FRESH empty list (the translator refuses a value that is not a literal -
+   a shared template list would carry entries from one instance to the
+   next); a new statistics object starts from a reset; the merge is `+=` *)
+Theorem C17_reset_from_source :
+  stats_of_fields stats_reset_fields = Some stats0 /\
+  stats_init_resets = true /\ stats_update_op = "+="%string.
+Proof. vm_compute. repeat split. Qed.
+
 (* run(): statistics are reset before anything else *)
 Theorem C17_run_resets_first :
   first_is (Call "stats_reset") sk_run = true.
@@ -107,3 +118,4 @@ Print Assumptions C17_stats_exact.
 Print Assumptions C17_task_model_counts_its_collection.
 Print Assumptions C17_no_carry_over.
 Print Assumptions C17_merge_discipline.
+Print Assumptions C17_reset_from_source.
